@@ -45,6 +45,12 @@ func genPlanC14(t *simrt.Tape, tier string) interface{} {
 		}
 	}
 	p.Conf.RegOut = []int{0, 0, 1, 1, 2}[t.Draw(5)]
+	if t.Draw(3) == 0 {
+		// the peer vanishes exactly while the server is inside a callback
+		p.Conf.VanishIn = []string{"auth", "reg"}[t.Draw(2)]
+		p.Conf.VanishRST = t.Draw(2) == 0
+		p.Conf.RegOut = 0
+	}
 	p.LingerS = 90
 	return p
 }
@@ -61,6 +67,8 @@ func runC14(w *World, pi interface{}) {
 	}
 	sig := func(what string) string { return fmt.Sprintf("%s transport=%s", what, p.Conf.Transport) }
 	established := map[int]bool{}
+	wrote := map[int]bool{}
+	unknown := map[int]bool{}
 	sidOf := map[int]string{}
 	clientLeft := map[int]bool{}
 	for k, peer := range peers {
@@ -79,6 +87,20 @@ func runC14(w *World, pi interface{}) {
 			case "c-close":
 				clientLeft[k] = true
 			}
+		}
+		// the server may have written the established envelope to the socket although the client never read it
+		if peer.Link != nil && !peer.TLS && !peer.WSS {
+			if strings.Contains(string(peer.Link.BA.Tap()), `"state":"established"`) {
+				wrote[k] = true
+			}
+		} else if !established[k] {
+			unknown[k] = true // encrypted or in-process: what the server managed to send cannot be seen
+		}
+	}
+	// from the server's point of view a session whose established envelope reached the socket did establish
+	for k := range peers {
+		if wrote[k] || unknown[k] {
+			established[k] = true
 		}
 	}
 	// A connection on which the server's latest word is a non-terminal session envelope that the
@@ -126,15 +148,19 @@ func runC14(w *World, pi interface{}) {
 	}
 	// 2. no callbacks for connections that did not establish
 	estIDs := map[string]bool{}
+	allKnown := true
 	for k := range peers {
-		if established[k] {
+		if established[k] || wrote[k] || unknown[k] {
 			estIDs[sidOf[k]] = true
+		}
+		if peers[k] != nil && sidOf[k] == "" {
+			allKnown = false
 		}
 	}
 	for _, e := range h.Ev {
 		if e.Kind == "cb-established" || e.Kind == "cb-finished" {
 			id := fstr(e.Frame, "id")
-			if !estIDs[id] {
+			if !estIDs[id] && (allKnown || len(peers) == 1) {
 				w.Violate("C14.callback-for-unestablished-connection", sig(e.Kind), "%s fired for session %s, which no client saw established\n%s", e.Kind, id, h.Dump(60))
 			}
 		}
